@@ -2,7 +2,7 @@
 import random
 from fractions import Fraction
 
-NAMES = ["a", "b", "c", "d", "e", "f", "g", "h", "x.0", "7", "y.1.0", "n1", "n2", "q", "t", "s", "z1", "z2", "z3", "0", "a_b", "c_d"]   # (z<n>, 0: names that look like the helper nodes the library creates itself)
+NAMES = ["a", "b", "c", "d", "e", "f", "g", "h", "x.0", "7", "y.1.0", "n1", "n2", "q", "t", "s", "z1", "z2", "z3", "0", "a_b", "c_d", "b_d"]   # (z<n>, 0: names that look like the helper nodes the library creates itself)
 
 
 def node_names(rng, n, hostile=True):
